@@ -230,6 +230,16 @@ def signals(tier="quick"):
 # ---------------------------------------------------------------------------------------------
 
 def _jobserver_case(args):
+    """One case; a run that hit the orchestrator's own time limit says nothing about ninja: it is repeated with a
+    six times longer limit, and only a second time-out is reported (as what it is)."""
+    out = _jobserver_case_once(args, 20.0)
+    if out.get("timed_out"):
+        out = _jobserver_case_once(args, 120.0)
+        out["repeated_after_a_timeout"] = True
+    return out
+
+
+def _jobserver_case_once(args, limit):
     sc, tokens, opi, choices, sig_at, ninja, vcmd = args[:7]
     explicit_j = args[7] if len(args) > 7 else None   # -jN given together with the inherited jobserver: -j wins
     r = rb.Real(sc, ninja, vcmd)
@@ -248,8 +258,10 @@ def _jobserver_case(args):
         max_running = [0]
         orig = r.started_files
 
-        o = r.run_ninja(op, choices, signal_at=sig_at, env_extra=env)
+        o = r.run_ninja(op, choices, signal_at=sig_at, env_extra=env, timeout=limit)
         time.sleep(0.02)
+        if o.get("timeout"):
+            out["timed_out"] = True
         left = 0
         try:
             while True:
@@ -265,7 +277,9 @@ def _jobserver_case(args):
         if o.get("no_exit_after_signal"):
             # it had to be SIGKILLed by the orchestrator: what it held is lost by our doing, not counted
             out["problems"].append("ninja did not exit within 5 s of the signal although every command had ended")
-        elif left != tokens:
+        elif o.get("timeout"):
+            out["problems"].append("ninja had not finished after %d s and was killed by the orchestrator" % int(limit))
+        elif left != tokens and not o.get("hang"):
             out["problems"].append("%d jobserver token(s) in the FIFO after ninja exited (exit %s), %d before" % (left, o["exit"], tokens))
         if o.get("hang"):
             out["problems"].append("ninja waits forever although tokens are available")
